@@ -73,6 +73,16 @@ func SliceRangeLoops(fn *ssa.Function) []*RangeLoop {
 							arr = ix.X
 						}
 					}
+					// `for i := range a { … a[i] … }` over a local array variable: the element is read through &a[i]
+					if ia, ok := in.(*ssa.IndexAddr); ok && ia.Index == ssa.Value(inc) && arr == nil {
+						if al, ok := ia.X.(*ssa.Alloc); ok {
+							if pt, ok := al.Type().Underlying().(*types.Pointer); ok {
+								if at, ok := pt.Elem().Underlying().(*types.Array); ok && at.Len() == k.Int64() {
+									arr = al
+								}
+							}
+						}
+					}
 				}
 			}
 			if arr != nil {
